@@ -196,6 +196,15 @@ def run(ctx):
                     if render_gen.in_domain(t, dt, cur):
                         check_case(ctx, P, PP, t, dt, 3, '.', off, 'str', cur, hits)
                         ctx.count('systematic')
+        # systematic: six-digit fractions through every template that renders one (a binary floating-point detour loses a
+        # microsecond for about one value in a hundred)
+        fr = [t for t in render_gen.TEMPLATES if t.prec == 'frac']
+        for k, us in enumerate(range(ctx.shard * 7 + 1, 1000000, 331 * ctx.nshards)):
+            t = fr[k % len(fr)]
+            dt = D.datetime(2003, 9, 25, 10, 49, 41, us)
+            if render_gen.in_domain(t, dt, cur):
+                check_case(ctx, P, PP, t, dt, 6, '.', None, 'str', cur, hits)
+                ctx.count('six_digit_fraction_sweep')
         if ctx.shard == 0:
             two_digit_year_window(ctx, P, PP)
     finally:
@@ -258,6 +267,8 @@ def floors(agg, tier):
     c, out = agg['counters'], []
     from vf import concurrent as CC
     CC.floor(c, 'parse', 1000, 1000, out)
+    if c.get('six_digit_fraction_sweep', 0) < 2500:
+        out.append('six-digit fraction sweep only %d' % c.get('six_digit_fraction_sweep', 0))
     need = {'quick': 40000, 'thorough': 400000}[tier]
     if agg['evaluations'] < need:
         out.append('only %d evaluations (< %d)' % (agg['evaluations'], need))
